@@ -173,8 +173,22 @@ impl<'a, L> Engine<'a, L> {
         }
         // check that candidate compound literals are indeed compound literels
         if self.options.rdf_direction() == Some(RdfDirection::CompoundLiteral) {
+            // (a compound literal is rendered in place of the references to it,
+            // so a node that nobody references must stay an ordinary node, or it would be lost)
+            let referenced: HashSet<usize> = self
+                .node
+                .iter()
+                .flat_map(|node| node.iter())
+                .filter(|(key, _)| key.as_ref() != "@graph")
+                .flat_map(|(_, objs)| objs.iter())
+                .filter_map(|obj| match obj {
+                    RdfObject::Node(inode, _) => Some(*inode),
+                    _ => None,
+                })
+                .collect();
             let mut compound_literals = std::mem::take(&mut self.compound_literals);
-            compound_literals.retain(|is| is_compound_literal(&self.node[*is]));
+            compound_literals
+                .retain(|is| referenced.contains(is) && is_compound_literal(&self.node[*is]));
             self.compound_literals = compound_literals;
         }
 
